@@ -199,7 +199,7 @@ def requests_for(stream_msg, idx, scaled=False, nvar=6):
     reqs = [(dict(base, target="server", pol="all"), out["all"], 0)]
     variants = [(dict(base, target="server+filter", pol=p, writable=POLICY_WRITABLE[p]), out[p], 0) for p in (["g1"] if scaled else ["all", "g1", "g2"])]
     variants.append((dict(base, target="kvgraph", pol="all"), out["all"], 0))
-    variants.append((dict(base, target="streambatch", pol="g1", graph="g1", batch=(50 if scaled else 1 + idx % 3)), out["g1"], foreign))
+    variants.append((dict(base, target="streambatch", pol="g1", graph="g1", batch=(50 if scaled else 1 + (idx // 3) % 3)), out["g1"], foreign))
     variants.append((dict(base, target="sequential", pol="all"), out["all"], 0))
     if nvar >= len(variants):
         return reqs + variants
